@@ -253,6 +253,96 @@ def _monotone_lines(tree):
     return tree
 
 
+def _unroll_literal_loops(tree):
+    """normal form:  for a, b in ((x1, y1), (x2, y2)): BODY   ->   BODY[a:=x1, b:=y1]; BODY[a:=x2, b:=y2]
+    when the elements are effect-free expressions (names, constants, attribute chains) the body does not disturb, the
+    loop variables live only in the body, and the body has no break / continue / nested function (late binding)"""
+    import copy
+
+    def pure(e):
+        while isinstance(e, ast.Attribute):
+            e = e.value
+        return isinstance(e, (ast.Name, ast.Constant))
+
+    def root(e):
+        while isinstance(e, ast.Attribute):
+            e = e.value
+        return e.id if isinstance(e, ast.Name) else None
+
+    def try_unroll(lp, fn):
+        if lp.orelse or not isinstance(lp.iter, (ast.Tuple, ast.List)) or not 1 <= len(lp.iter.elts) <= 8:
+            return None
+        if isinstance(lp.target, ast.Name):
+            tnames = [lp.target.id]
+            rows = [[e] for e in lp.iter.elts]
+        elif isinstance(lp.target, (ast.Tuple, ast.List)) and all(isinstance(t, ast.Name) for t in lp.target.elts):
+            tnames = [t.id for t in lp.target.elts]
+            rows = []
+            for e in lp.iter.elts:
+                if not (isinstance(e, (ast.Tuple, ast.List)) and len(e.elts) == len(tnames)):
+                    return None
+                rows.append(list(e.elts))
+        else:
+            return None
+        if len(set(tnames)) != len(tnames) or not all(pure(x) for r_ in rows for x in r_):
+            return None
+        inside = {id(n) for b in lp.body for n in ast.walk(b)}
+        for b in lp.body:
+            for n in ast.walk(b):
+                if isinstance(n, (ast.Break, ast.Continue, ast.Lambda, ast.FunctionDef, ast.AsyncFunctionDef, ast.ClassDef, ast.Yield, ast.YieldFrom, ast.GeneratorExp, ast.Global, ast.Nonlocal)):
+                    return None
+                if isinstance(n, ast.Name) and isinstance(n.ctx, (ast.Store, ast.Del)) and (n.id in tnames or n.id in {root(x) for r_ in rows for x in r_}):
+                    return None
+        # the loop variables are not used outside the loop
+        for n in ast.walk(fn):
+            if isinstance(n, ast.Name) and n.id in tnames and id(n) not in inside and not any(n is t for t in ast.walk(lp.target)):
+                return None
+        # locals that live only inside the body get a name per iteration (they stay single-assignment)
+        stored = {n.id for b in lp.body for n in ast.walk(b) if isinstance(n, ast.Name) and isinstance(n.ctx, ast.Store)}
+        outside = {n.id for n in ast.walk(fn) if isinstance(n, ast.Name) and id(n) not in inside}
+        private = stored - outside
+        out = []
+        for k_, r_ in enumerate(rows):
+            m = dict(zip(tnames, r_))
+
+            class Sub(ast.NodeTransformer):
+                def visit_Name(self, node):
+                    if node.id in m and isinstance(node.ctx, ast.Load):
+                        return copy.deepcopy(m[node.id])
+                    if node.id in private and len(rows) > 1:
+                        node.id = f'{node.id}__{k_ + 1}'
+                    return node
+
+            for b in lp.body:
+                out.append(Sub().visit(copy.deepcopy(b)))
+        return out
+
+    def do(body, fn):
+        out = []
+        for s in body:
+            for fld in ('body', 'orelse', 'finalbody'):
+                b = getattr(s, fld, None)
+                if isinstance(b, list) and b and isinstance(b[0], ast.stmt) and not isinstance(s, (ast.FunctionDef, ast.AsyncFunctionDef, ast.ClassDef)):
+                    setattr(s, fld, do(b, fn))
+            if isinstance(s, ast.Try):
+                for h in s.handlers:
+                    h.body = do(h.body, fn)
+            if isinstance(s, ast.For):
+                u = try_unroll(s, fn)
+                if u is not None:
+                    out.extend(u)
+                    continue
+            out.append(s)
+        return out
+
+    if os.environ.get('VERIF_NO_UNROLL'):
+        return tree
+    for fn in [n for n in ast.walk(tree) if isinstance(n, (ast.FunctionDef, ast.AsyncFunctionDef))]:
+        fn.body = do(fn.body, fn)
+    ast.fix_missing_locations(tree)
+    return tree
+
+
 def _split_tuple_assign(tree):
     """normal form:  a, b = x, y   ->   a = x; b = y   when the targets are plain names none of which is read by a
     value (then the element-wise order binds the same values)"""
@@ -454,7 +544,7 @@ class Module:
         key = (path, self.digest)
         tree = _TREES.get(key)
         if tree is None:
-            tree = _TREES[key] = _collapse_temps(_split_tuple_assign(_orient_comparisons(_Mangle().visit(ast.parse(source, path)))))
+            tree = _TREES[key] = _collapse_temps(_split_tuple_assign(_unroll_literal_loops(_orient_comparisons(_Mangle().visit(ast.parse(source, path))))))
         self.tree = tree
         self.is_pkg = os.path.basename(path) == '__init__.py'
         self.imports = {}  # local name -> dotted target ('mod' or 'mod.sym')
